@@ -241,7 +241,16 @@ def check(run):
     voids = []
     for st in ast.walk(fi.node):
         if isinstance(st, ast.Assign) and "np.void" in ast.unparse(st.value):
-            txt = ast.unparse(st.value).replace(" ", "")
+            # names with one definition in the function are replaced by that definition (a named width `row_bytes = ...`)
+            class _Sub(ast.NodeTransformer):
+                def visit_Name(self, n_):
+                    ds = [a_.value for a_ in ast.walk(fi.node) if isinstance(a_, ast.Assign) and len(a_.targets) == 1 and isinstance(a_.targets[0], ast.Name)
+                          and a_.targets[0].id == n_.id]
+                    if len(ds) == 1 and n_.id != arr and isinstance(n_.ctx, ast.Load):
+                        return self.visit(ast.parse(ast.unparse(ds[0]), mode="eval").body)
+                    return n_
+            import copy as _copy
+            txt = ast.unparse(_Sub().visit(_copy.deepcopy(st.value))).replace(" ", "")
             voids.append((f"{arr}.dtype.itemsize*{arr}.shape[1]" in txt) or (f"{arr}.shape[1]*{arr}.dtype.itemsize" in txt))
     ok4 = bool(voids) and all(voids)
     run.obligation("R4", fi.where, "void dtype width == itemsize * shape[1]", ok4)
